@@ -35,3 +35,26 @@ Inductive dreachable (c : cfg) : xsys -> Prop :=
 (* free (undisciplined) reachability *)
 Definition xreachable (c : cfg) (s : xsys) : Prop :=
   exists s0 ops, xinit c = Some s0 /\ s = xrun c s0 ops.
+
+(* disciplined reachability in which every reconnect succeeded (a failed XCut —
+   ErrSanity because a re-sign is not payable — ends the link; the state it
+   leaves behind, restored parties with empty queues, is not a protocol state) *)
+Inductive dreachable_ok (c : cfg) : xsys -> Prop :=
+| dro_init s0 : xinit c = Some s0 -> dreachable_ok c s0
+| dro_step s o : dreachable_ok c s -> disciplined c s o = true ->
+                 (forall ka kb, o = XCut ka kb -> fst (xstep c s o) = Ok) ->
+                 dreachable_ok c (snd (xstep c s o)).
+
+(* boolean checkers used by the examples: every step Ok / every step disciplined *)
+Fixpoint xall_ok (c : cfg) (s : xsys) (ops : list xop) : bool :=
+  match ops with
+  | [] => true
+  | o :: r => match xstep c s o with (Ok, s') => xall_ok c s' r | _ => false end
+  end.
+
+Fixpoint xall_disc (c : cfg) (s : xsys) (ops : list xop) : bool :=
+  match ops with
+  | [] => true
+  | o :: r => disciplined c s o && xall_disc c (snd (xstep c s o)) r
+  end.
+
